@@ -1179,3 +1179,415 @@ class NamedTupleFieldsPy(IsNamedTupleClassPy):
     def post(self, eng, st, entry, ret):
         return [('returns-the-fields-of-the-class', ret == nt_attr(self.C(), nt_name('_fields'))),
                 ('only-for-namedtuple-classes', NT(self.C()))]
+
+
+# ======================================================================================================================
+# C18 / C02: utils.total_order_sorted - the Python twin of the engine's TotalOrderSort (ocv/contracts/sorting.py), against
+# the same three-stage specification over abstract list contents
+
+sorted_plain = z3.Function('sorted_plain', Ref, Ref)
+sorted_by_key = z3.Function('sorted_by_typename_then_value', Ref, Ref)
+
+
+@pycontract
+class TotalOrderSortedPy(PyContract):
+    """total_order_sorted(iterable) with key=None, reverse=False (the way the one-level twin uses it):
+       result = sorted_plain(C0)  if sorting C0 = list(iterable) directly succeeds,
+                sorted_by_typename_then_value(C0)  if that raised TypeError and sorting by the fallback key succeeds,
+                C0  if that raised TypeError as well;  every other exception propagates.
+       The fallback key of x is (<'module.qualname' of type(x)>, x)."""
+    module = 'optree/utils.py'
+    function = 'total_order_sorted'
+
+    def setup(self, eng, st, fn):
+        st.env.vars['iterable'] = z3.Const('iterable', Ref)
+        st.env.vars['key'] = PYNONE
+        st.env.vars['reverse'] = z3.BoolVal(False)
+        self.C0 = z3.Const('content_on_entry', Ref)
+        st.ghost['outcomes'] = ()
+        st.ghost['key_checked'] = False
+
+    def global_name(self, eng, st, name):
+        if name in ('sorted',):
+            return BuiltinV('sorted')
+        return None
+
+    def attribute(self, eng, st, base, attr):
+        if is_z3(base) and base.sort() == Ref:
+            return z3.Function('attr_' + attr, Ref, Ref)(base)
+        return None
+
+    def call(self, eng, st, f, args, kwargs, n, stars):
+        line = n.lineno
+        if isinstance(f, BuiltinV) and f.name == 'list' and len(args) == 1 and is_z3(args[0]):
+            s_exc = st.clone()
+            eng.throw(s_exc, 'IterationError', line)
+            return [(st, StructV('content', (('c', self.C0),)))]
+        if isinstance(f, BuiltinV) and f.name == 'sorted':
+            seq = args[0]
+            if not (isinstance(seq, StructV) and seq.kind == 'content'):
+                raise Unsupported('sorted of something else')
+            eng.oblige(st, 'III', 'sorts-the-original-content', seq.get('c') == self.C0, line)
+            keyf = kwargs.get('key', PYNONE)
+            which = 'sort1' if not isinstance(keyf, FuncV) else 'sort2'
+            if isinstance(keyf, FuncV):
+                x = z3.Const('x!key', Ref)
+                s_k = st.clone()
+                r = eng.call_function(s_k, keyf, [x], {}, n)
+                ok = len(r) == 1 and isinstance(r[0][1], TupV) and len(r[0][1].items) == 2
+                eng.oblige(st, 'III', 'fallback-key-is-a-pair', z3.BoolVal(ok), line)
+                if ok:
+                    eng.oblige(st, 'III', 'fallback-key-second-component-is-the-object-itself', eng.identical(r[0][1].items[1], x), line)
+                st.ghost['key_checked'] = True
+            else:
+                eng.oblige(st, 'III', 'first-sort-uses-the-given-key', eng.identical(keyf, st.env.get('key')), line)
+            eng.oblige(st, 'III', 'forwards-reverse', eng.truth(st, kwargs.get('reverse', z3.BoolVal(False))) == eng.truth(st, st.env.get('reverse')), line)
+            fn = sorted_plain if which == 'sort1' else sorted_by_key
+            s_te, s_other = st.clone(), st.clone()
+            s_te.ghost['outcomes'] = s_te.ghost['outcomes'] + ((which, 'TypeError'),)
+            eng.throw(s_te, 'TypeError', line)
+            s_other.ghost['outcomes'] = s_other.ghost['outcomes'] + ((which, 'other'),)
+            eng.throw(s_other, 'OtherError', line)
+            st.ghost['outcomes'] = st.ghost['outcomes'] + ((which, 'ok'),)
+            return [(st, StructV('content', (('c', fn(seq.get('c'))),)))]
+        return None
+
+    def raises(self, eng, st, entry):
+        oc = dict(st.ghost['outcomes'])
+        # only a non-TypeError exception of one of the two sorts (or of iterating the argument) may leave the function
+        return {'OtherError': z3.BoolVal('other' in oc.values()), 'IterationError': None}
+
+    def post(self, eng, st, entry, ret):
+        oc = dict(st.ghost['outcomes'])
+        if not (isinstance(ret, StructV) and ret.kind == 'content'):
+            return [('returns-a-list-of-the-items', z3.BoolVal(False))]
+        c = ret.get('c')
+        if oc.get('sort1') == 'ok':
+            exp, legal = sorted_plain(self.C0), True
+        elif oc.get('sort1') == 'TypeError' and oc.get('sort2') == 'ok':
+            exp, legal = sorted_by_key(self.C0), True
+        elif oc.get('sort1') == 'TypeError' and oc.get('sort2') == 'TypeError':
+            exp, legal = self.C0, True
+        else:
+            exp, legal = self.C0, False
+        return [('normal-return-only-in-the-documented-cases', z3.BoolVal(legal)),
+                ('content-is-the-documented-order', c == exp),
+                ('fallback-key-function-was-checked-when-the-fallback-ran', z3.BoolVal('sort2' not in oc or st.ghost['key_checked']))]
+
+
+# ======================================================================================================================
+# C20: the unravel functions of optree/integration/{numpy,torch}.py against an abstract array algebra
+#
+# A-ARRAY (assumed contracts of the array libraries; nothing about element VALUES is decided here):
+#   shape_of(x)                 np.shape(x) / x.shape;   shape1(n) the shape (n,), injective
+#   dtype_of(x)                 np.result_type(x) / x.dtype
+#   np.split(a, cuts)           piece k = part(a, cut_{k-1}, cut_k) with cut_{-1} = 0, last end = len(a); len(cuts)+1 pieces
+#   torch.split(a, sizes)       piece k = part(a, S_k, S_k + sizes[k]) with S the prefix sums of sizes; len(sizes) pieces
+#   x.reshape(s) / x.astype(d) / x.to(d)   uninterpreted results reshaped(x, s), cast(x, d)
+#   sum(seq)                    the prefix sum at len(seq)
+# Round trip (follows from these contracts and the library laws part(concat(R), S_k, S_{k+1}) = R[k] for |R[k]| = S_{k+1}-S_k and
+# reshaped(ravel(x), shape_of(x)) = x): unravel(ravel(t)) = t.  The laws themselves are about the libraries and are bounded only.
+
+shape_of = z3.Function('array_shape', Ref, Ref)
+shape1 = z3.Function('shape_1d', Int, Ref)
+dtype_of = z3.Function('array_dtype', Ref, Ref)
+part = z3.Function('array_part', Ref, Int, Int, Ref)
+reshaped = z3.Function('array_reshaped', Ref, Ref, Ref)
+cast = z3.Function('array_cast', Ref, Ref, Ref)
+int_at = z3.Function('int_tuple_at', Ref, Int, Int)        # i-th element of a tuple of ints
+ref_at = z3.Function('ref_tuple_at', Ref, Int, Ref)
+tup_len = z3.Function('py_len', Ref, Int)
+psum = z3.Function('prefix_sum', Ref, Int, Int)            # psum(sizes, k) = sizes[0] + .. + sizes[k-1]
+is_tensor = z3.Function('torch_is_tensor', Ref, Bool)
+
+
+class UnravelBase(PyContract):
+    backend = 'numpy'
+    cut_param = 'indices'        # numpy: cumulative end offsets; torch: sizes
+    mixed = False
+
+    def setup(self, eng, st, fn):
+        a = fn.args
+        for p in a.posonlyargs + a.args + a.kwonlyargs:
+            st.env.vars[p.arg] = z3.Const(p.arg, Ref)
+        c = z3.Const(self.cut_param, Ref)
+        st.facts.append(tup_len(c) >= 1)          # the unravel functions are only built for at least one leaf (_ravel_leaves)
+        i = z3.Int('i!a')
+        st.facts.append(z3.ForAll([i], z3.Implies(i >= 0, psum(c, i + 1) == psum(c, i) + int_at(c, i)), patterns=[psum(c, i + 1)]))
+        st.facts.append(psum(c, 0) == 0)
+        n, m = z3.Ints('n!a m!a')
+        st.facts.append(z3.ForAll([n, m], z3.Implies(shape1(n) == shape1(m), n == m), patterns=[z3.MultiPattern(shape1(n), shape1(m))]))
+        # a one-dimensional array of shape (n,) has n elements
+        st.facts.append(z3.ForAll([n], z3.Implies(shape_of(z3.Const('flat', Ref)) == shape1(n), z3.Int('len_of_flat') == n),
+                                  patterns=[shape1(n)]))
+
+    def global_name(self, eng, st, name):
+        if name in ('np', 'torch', 'warnings'):
+            return OpaqueV('module:' + name)
+        if name in ('sum', 'list', 'tuple'):
+            return BuiltinV(name)
+        if name == 'safe_zip':
+            return BuiltinV('safe_zip')
+        return None
+
+    def to_seq(self, eng, st, v):
+        if is_z3(v) and v.sort() == Ref:
+            st.facts.append(tup_len(v) >= 0)
+            if v.eq(z3.Const(self.cut_param, Ref)):
+                return SeqV(tup_len(v), lambda i, v=v: int_at(v, i))
+            return SeqV(tup_len(v), lambda i, v=v: ref_at(v, i))
+        return None
+
+    def attribute(self, eng, st, base, attr):
+        if is_z3(base) and base.sort() == Ref:
+            if attr == 'shape':
+                return shape_of(base)
+            if attr == 'dtype':
+                return dtype_of(base)
+            if attr in ('reshape', 'astype', 'to'):
+                return BoundV(base, attr)
+        return None
+
+    def subscript(self, eng, st, base, idx):
+        if is_z3(base) and base.sort() == Ref:
+            seq = self.to_seq(eng, st, base)
+            return eng.index(st, seq, idx)
+        return None
+
+    def equal(self, eng, st, a, b):
+        # shape comparison  x.shape == (n,)
+        for x, y in ((a, b), (b, a)):
+            if is_z3(x) and x.sort() == Ref and isinstance(y, TupV) and len(y.items) == 1:
+                return x == shape1(eng.as_int(y.items[0]))
+        if is_z3(a) and is_z3(b) and a.sort() == Ref and b.sort() == Ref:
+            return a == b
+        return None
+
+    def call(self, eng, st, f, args, kwargs, n, stars):
+        line = n.lineno
+        if isinstance(f, BoundV) and isinstance(f.obj, OpaqueV) and f.obj.tag in ('module:np', 'module:torch'):
+            if f.name == 'shape':
+                return [(st, shape_of(args[0]))]
+            if f.name == 'result_type':
+                return [(st, dtype_of(args[0]))]
+            if f.name == 'is_tensor':
+                return [(st, is_tensor(args[0]))]
+            if f.name == 'promote_types':
+                return [(st, z3.Function('promote_types', Ref, Ref, Ref)(args[0], args[1]))]
+            if f.name == 'split':
+                flat, cuts = args[0], eng.to_seq(st, args[1])
+                if self.backend == 'numpy':
+                    return [(st, SeqV(cuts.len + 1, lambda k, flat=flat, cuts=cuts: part(
+                        flat, z3.If(k == 0, 0, eng.as_int(cuts.at(k - 1))), z3.If(k == cuts.len, z3.Int('len_of_flat'), eng.as_int(cuts.at(k))))))]
+                c = z3.Const(self.cut_param, Ref)
+                return [(st, SeqV(cuts.len, lambda k, flat=flat, cuts=cuts, c=c: part(flat, psum(c, k), psum(c, k) + eng.as_int(cuts.at(k)))))]
+        if isinstance(f, BoundV) and isinstance(f.obj, OpaqueV) and f.obj.tag == 'module:warnings':
+            return [(st, OpaqueV('warnings:' + f.name))]
+        if isinstance(f, BoundV) and is_z3(f.obj) and f.name == 'reshape':
+            return [(st, reshaped(f.obj, args[0]))]
+        if isinstance(f, BoundV) and is_z3(f.obj) and f.name in ('astype', 'to'):
+            return [(st, cast(f.obj, args[0]))]
+        if isinstance(f, BuiltinV) and f.name == 'sum':
+            seq = eng.to_seq(st, args[0])
+            return [(st, psum(z3.Const(self.cut_param, Ref), seq.len))]
+        if isinstance(f, BuiltinV) and f.name == 'list' and args and isinstance(args[0], SeqV):
+            return [(st, args[0])]
+        if isinstance(f, BuiltinV) and f.name == 'list' and args and is_z3(args[0]):
+            return [(st, eng.to_seq(st, args[0]))]
+        if isinstance(f, BuiltinV) and f.name == 'safe_zip':
+            seqs = [eng.to_seq(st, a) for a in args]
+            same = z3.And(*[s_.len == seqs[0].len for s_ in seqs[1:]]) if len(seqs) > 1 else z3.BoolVal(True)
+            s_bad = st.clone()
+            eng.assume(s_bad, z3.Not(same))
+            if eng.feasible(s_bad):
+                eng.throw(s_bad, 'ValueError(length mismatch)', line)
+            eng.assume(st, same)
+            return [(st, SeqV(seqs[0].len, lambda i, seqs=seqs: TupV(tuple(s_.at(i) for s_ in seqs))))]
+        return None
+
+    # expected piece boundaries
+    def bounds(self, k):
+        c = z3.Const(self.cut_param, Ref)
+        if self.backend == 'numpy':
+            return z3.If(k == 0, 0, int_at(c, k - 1)), int_at(c, k)
+        return psum(c, k), psum(c, k + 1)
+
+    def total(self):
+        c = z3.Const(self.cut_param, Ref)
+        return int_at(c, tup_len(c) - 1) if self.backend == 'numpy' else psum(c, tup_len(c))
+
+    def raises(self, eng, st, entry):
+        flat = z3.Const('flat', Ref)
+        wrong_shape = shape_of(flat) != shape1(self.total())
+        conds = [wrong_shape]
+        if self.backend == 'torch':
+            conds.append(z3.Not(is_tensor(flat)))
+        if self.mixed:
+            conds.append(dtype_of(flat) != z3.Const('to_dtype', Ref))
+        return {'ValueError': z3.Or(*conds), 'ValueError(length mismatch)': None}
+
+    def post(self, eng, st, entry, ret):
+        flat, shapes = z3.Const('flat', Ref), z3.Const('shapes', Ref)
+        c = z3.Const(self.cut_param, Ref)
+        out = [('accepted-only-with-the-right-shape', shape_of(flat) == shape1(self.total()))]
+        if self.backend == 'torch':
+            out.append(('accepted-only-for-tensors', is_tensor(flat)))
+        if self.mixed:
+            out.append(('accepted-only-with-the-promoted-dtype', dtype_of(flat) == z3.Const('to_dtype', Ref)))
+        if not isinstance(ret, SeqV):
+            return out + [('returns-a-list', z3.BoolVal(False))]
+        k = z3.Int('k!piece')
+        n_ = tup_len(c)
+        lo, hi = self.bounds(k)
+        piece = part(flat, lo, hi)
+        exp = reshaped(piece, ref_at(shapes, k))
+        if self.mixed:
+            exp = cast(exp, ref_at(z3.Const('from_dtypes', Ref), k))
+        out += [('one-array-per-leaf', z3.And(ret.len == n_, ret.len == tup_len(shapes))),
+                ('array-k-is-piece-k-of-flat-in-shape-k' + ('-cast-back-to-dtype-k' if self.mixed else ''),
+                 z3.Implies(z3.And(0 <= k, k < n_), ret.at(k) == exp))]
+        return out
+
+
+def _mk_unravel(module, function, backend, cut_param, mixed):
+    cls = type('Unravel_' + backend + '_' + function, (UnravelBase,), {'module': module, 'function': function, 'backend': backend,
+                                                                       'cut_param': cut_param, 'mixed': mixed})
+    return pycontract(cls)
+
+
+_mk_unravel('optree/integration/numpy.py', '_unravel_leaves_single_dtype', 'numpy', 'indices', False)
+_mk_unravel('optree/integration/numpy.py', '_unravel_leaves', 'numpy', 'indices', True)
+_mk_unravel('optree/integration/torch.py', '_unravel_leaves_single_dtype', 'torch', 'sizes', False)
+_mk_unravel('optree/integration/torch.py', '_unravel_leaves', 'torch', 'sizes', True)
+
+
+# ---- C20: numpy _ravel_leaves ----------------------------------------------------------------------------------------------
+raveled_of = z3.Function('array_ravel_C_order', Ref, Ref)          # np.ravel(x) in C (row-major) order
+size_of = z3.Function('array_size', Ref, Int)
+concat_of = z3.Function('array_concatenate', Ref, Ref)             # of a sequence object (see seq_obj)
+result_type_all = z3.Function('result_type_of_all', Ref, Ref)
+leaf_at = z3.Function('leaves_at', Int, Ref)
+
+
+@pycontract
+class RavelLeavesNumpy(PyContract):
+    """_ravel_leaves(leaves), numpy: for no leaves (zeros(0), _unravel_empty); otherwise the flat array is the concatenation of
+    np.ravel(leaf_k) - default C order, cast to the common dtype when the dtypes differ - in leaf order, and the unravel
+    closure is partial(_unravel_leaves[_single_dtype], indices, shapes[, from_dtypes, to_dtype]) with
+    indices[k] = size(leaf_0) + .. + size(leaf_k), shapes[k] = np.shape(leaf_k), from_dtypes[k] = result_type(leaf_k)."""
+    module = 'optree/integration/numpy.py'
+    function = '_ravel_leaves'
+
+    def setup(self, eng, st, fn):
+        self.n = z3.Int('number_of_leaves')
+        st.facts.append(self.n >= 0)
+        st.env.vars['leaves'] = SeqV(self.n, lambda i: leaf_at(i))
+        i = z3.Int('i!rl')
+        st.facts.append(z3.ForAll([i], size_of(leaf_at(i)) >= 0, patterns=[size_of(leaf_at(i))]))
+        self.acc = z3.Function('accumulated_sizes', Int, Int)
+        st.facts.append(z3.ForAll([i], z3.Implies(i >= 0, self.acc(i) == z3.If(i == 0, 0, self.acc(i - 1)) + size_of(leaf_at(i))),
+                                  patterns=[self.acc(i)]))
+
+    def global_name(self, eng, st, name):
+        if name in ('np', 'itertools', 'functools'):
+            return OpaqueV('module:' + name)
+        if name in ('all', 'tuple', 'list'):
+            return BuiltinV(name)
+        if name in ('_unravel_empty', '_unravel_leaves_single_dtype', '_unravel_leaves'):
+            return OpaqueV('fn:' + name)
+        return None
+
+    def truthy_seq(self, eng, st, v):
+        return None
+
+    def attribute(self, eng, st, base, attr):
+        if is_z3(base) and base.sort() == Ref and attr == 'astype':
+            return BoundV(base, attr)
+        return None
+
+    def equal(self, eng, st, a, b):
+        if is_z3(a) and is_z3(b) and a.sort() == Ref and b.sort() == Ref:
+            return a == b
+        return None
+
+    def call(self, eng, st, f, args, kwargs, n, stars):
+        line = n.lineno
+        if isinstance(f, BoundV) and isinstance(f.obj, OpaqueV) and f.obj.tag == 'module:np':
+            if f.name == 'zeros':
+                return [(st, StructV('zeros', (('n', eng.as_int(args[0])),)))]
+            if f.name == 'result_type':
+                if stars:
+                    return [(st, result_type_all(z3.Const('leaves_object', Ref)))]
+                return [(st, dtype_of(args[0]))]
+            if f.name == 'size':
+                return [(st, size_of(args[0]))]
+            if f.name == 'shape':
+                return [(st, shape_of(args[0]))]
+            if f.name == 'ravel':
+                eng.oblige(st, 'III', 'ravel-in-the-default-row-major-order', z3.BoolVal(not kwargs and len(args) == 1), line)
+                return [(st, raveled_of(args[0]))]
+            if f.name == 'concatenate':
+                return [(st, StructV('concat', (('parts', eng.to_seq(st, args[0])),)))]
+        if isinstance(f, BoundV) and is_z3(f.obj) and f.name == 'astype':
+            return [(st, cast(f.obj, args[0]))]
+        if isinstance(f, BoundV) and isinstance(f.obj, OpaqueV) and f.obj.tag == 'module:itertools' and f.name == 'accumulate':
+            seq = eng.to_seq(st, args[0])
+            return [(st, SeqV(seq.len, lambda k, seq=seq: StructV('acc', (('k', k), ('seq', seq)))))]
+        if isinstance(f, BoundV) and isinstance(f.obj, OpaqueV) and f.obj.tag == 'module:functools' and f.name == 'partial':
+            return [(st, StructV('partial', (('fn', args[0]), ('args', TupV(tuple(args[1:]))))))]
+        if isinstance(f, BuiltinV) and f.name == 'tuple':
+            return [(st, eng.to_seq(st, args[0]))]
+        if isinstance(f, BuiltinV) and f.name == 'all':
+            seq = eng.to_seq(st, args[0])
+            i = z3.Int('i!all')
+            s2 = st.clone()
+            return [(st, z3.ForAll([i], z3.Implies(z3.And(0 <= i, i < seq.len), eng.truth(st, seq.at(i)))))]
+        return None
+
+    def truth_hook(self, eng, st, v):
+        return None
+
+    def raises(self, eng, st, entry):
+        return {}
+
+    def post(self, eng, st, entry, ret):
+        if not (isinstance(ret, TupV) and len(ret.items) == 2):
+            return [('returns-a-pair', z3.BoolVal(False))]
+        flat, unravel = ret.items
+        k = z3.Int('k!rl')
+        rng = z3.And(0 <= k, k < self.n)
+        if isinstance(flat, StructV) and flat.kind == 'zeros':
+            return [('no-leaves:empty-array-and-the-empty-unravel', z3.And(self.n == 0, flat.get('n') == 0,
+                                                                           z3.BoolVal(isinstance(unravel, OpaqueV) and unravel.tag == 'fn:_unravel_empty')))]
+        out = [('with-leaves:flat-is-a-concatenation', z3.BoolVal(isinstance(flat, StructV) and flat.kind == 'concat')),
+               ('with-leaves:at-least-one', self.n >= 1)]
+        if not (isinstance(flat, StructV) and flat.kind == 'concat' and isinstance(unravel, StructV) and unravel.kind == 'partial'):
+            return out + [('unravel-is-a-partial-of-an-unravel-function', z3.BoolVal(False))]
+        parts = flat.get('parts')
+        fn, pargs = unravel.get('fn'), unravel.get('args').items
+        single = isinstance(fn, OpaqueV) and fn.tag == 'fn:_unravel_leaves_single_dtype'
+        mixed = isinstance(fn, OpaqueV) and fn.tag == 'fn:_unravel_leaves'
+        out.append(('unravel-is-a-partial-of-an-unravel-function', z3.BoolVal((single and len(pargs) == 2) or (mixed and len(pargs) == 4))))
+        if not (single or mixed):
+            return out
+        to = result_type_all(z3.Const('leaves_object', Ref))
+        piece = raveled_of(leaf_at(k)) if single else cast(raveled_of(leaf_at(k)), to)
+        out += [('one-piece-per-leaf', parts.len == self.n),
+                ('piece-k-is-leaf-k-raveled-in-row-major-order' + ('' if single else '-cast-to-the-common-dtype'), z3.Implies(rng, parts.at(k) == piece))]
+        indices, shapes = eng.to_seq(st, pargs[0]), eng.to_seq(st, pargs[1])
+        el = indices.at(k)
+        ok_idx = isinstance(el, StructV) and el.kind == 'acc'
+        out.append(('indices-are-the-accumulated-sizes', z3.BoolVal(ok_idx)))
+        if ok_idx:
+            sizes = el.get('seq')
+            out += [('indices-accumulate-one-size-per-leaf', z3.And(indices.len == self.n, sizes.len == self.n)),
+                    ('size-k-is-the-size-of-leaf-k', z3.Implies(rng, eng.as_int(sizes.at(k)) == size_of(leaf_at(k))))]
+        out += [('one-shape-per-leaf', shapes.len == self.n),
+                ('shape-k-is-the-shape-of-leaf-k', z3.Implies(rng, shapes.at(k) == shape_of(leaf_at(k))))]
+        if mixed:
+            fd = eng.to_seq(st, pargs[2])
+            out += [('from_dtypes-k-is-the-dtype-of-leaf-k', z3.And(fd.len == self.n, z3.Implies(rng, fd.at(k) == dtype_of(leaf_at(k))))),
+                    ('to_dtype-is-the-common-dtype', pargs[3] == to)]
+        else:
+            out.append(('single-dtype-path-only-when-all-dtypes-are-the-common-one', z3.Implies(rng, dtype_of(leaf_at(k)) == to)))
+        return out
